@@ -101,6 +101,10 @@ def fn2 (id : String) : Option (CType × (Cell → Cell → Cell)) :=
       | .str none, y => y | x, .str none => x
       | .str (some x), .str (some y) => .str (some (x ++ y)) | x, _ => x)
   | "s.second" => some (.string, fun _ b => b)
+  | "s.coalesce" => some (.string, fun a b => match a, b with
+      | .str (some x), _ => .str (some x)
+      | _, .str (some y) => .str (some y)
+      | _, _ => .str (some [110, 47, 97]))      -- "n/a": not null even when both arguments are
   | _ => none
 
 /-- Function kind of a column type: enum columns take string functions. -/
